@@ -31,8 +31,9 @@ ASSUMPTIONS = [
     'Daubechies reconstruction on float64 / integer images: the PROVED tolerance of theorem C17_tables_error_bound, '
     'tableTol[code]*max|f| (tableTol = 0, 1.3e-7, 1.9e-7, 2.5e-6, 1.7e-7, 7e-8, 8.1e-7, 1.5e-7, 7e-8, 1.1e-7 for D2..D20, '
     'read from lean/Mahotas/Properties/C17.lean; exact arithmetic on the float32 tables, every float image being a '
-    'rational image) plus 1e-12*max(1,max|f|) for the rounding of the double evaluation (not proved); it replaces the '
-    'empirical 1e-5 and is 4 to 140 times tighter. float32 images: 5e-5*max|f| (empirical: the kernels then compute in '
+    'rational image) plus the PROVED rounding allowance tableRoundTol[code]*max|f| of theorem C17_tables_rounded_bound '
+    '(every operation of the kernels rounded, standard model |fl x - x| <= 2^-53|x|, underflow excluded; + 1e-290); it '
+    'replaces the empirical 1e-5 and the former unproved 1e-12. float32 images: 5e-5*max|f| (empirical: the kernels then compute in '
     'float32, whose rounding dominates the proved 2.5e-6); '
     'model comparison 1e-12*scale for float64 and integer images, 1e-4*scale for float32 images (the kernels then '
     'compute in float32, the model in double)',
@@ -51,23 +52,39 @@ INT_DT = ['uint8', 'int16', 'int32', 'int64', 'uint16', 'bool']
 
 
 _TABLE_TOL = None
+_TABLE_ROUND_TOL = None
+
+
+def _read_rat_list(name, cap):
+    import re
+    from fractions import Fraction
+    src = (core.VERIF / 'lean' / 'Mahotas' / 'Properties' / 'C17.lean').read_text()
+    m = re.search(r'def ' + name + r' : List Rat :=\s*\[(.*?)\]', src, flags=re.S)
+    if not m:
+        raise core.Infra(f'C17: def {name} not found in Properties/C17.lean')
+    vals = [Fraction(x.strip().replace(' ', '')) for x in m.group(1).split(',')]
+    if len(vals) != len(CODES) or any(v < 0 or v > cap for v in vals):
+        raise core.Infra(f'C17: {name} has an unexpected shape')
+    return [float(v) for v in vals]
 
 
 def table_tol():
     """the proved tolerances `tableTol` of lean/Mahotas/Properties/C17.lean (theorem C17_tables_error_bound)"""
     global _TABLE_TOL
     if _TABLE_TOL is None:
-        import re
         from fractions import Fraction
-        src = (core.VERIF / 'lean' / 'Mahotas' / 'Properties' / 'C17.lean').read_text()
-        m = re.search(r'def tableTol : List Rat :=\s*\[(.*?)\]', src, flags=re.S)
-        if not m:
-            raise core.Infra('C17: def tableTol not found in Properties/C17.lean')
-        vals = [Fraction(x.strip().replace(' ', '')) for x in m.group(1).split(',')]
-        if len(vals) != len(CODES) or any(v < 0 or v > Fraction(1, 100000) for v in vals):
-            raise core.Infra('C17: tableTol has an unexpected shape')
-        _TABLE_TOL = [float(v) for v in vals]
+        _TABLE_TOL = _read_rat_list('tableTol', Fraction(1, 100000))
     return _TABLE_TOL
+
+
+def table_round_tol():
+    """the proved allowances `tableRoundTol` for the rounding of the double evaluation (theorem C17_tables_rounded_bound:
+    standard model |fl x - x| <= 2^-53 |x|, underflow excluded)"""
+    global _TABLE_ROUND_TOL
+    if _TABLE_ROUND_TOL is None:
+        from fractions import Fraction
+        _TABLE_ROUND_TOL = _read_rat_list('tableRoundTol', Fraction(1, 10 ** 10))
+    return _TABLE_ROUND_TOL
 
 
 MEM_LAYOUTS = ['C', 'C', 'F', 'strided', 'negstride', 'offset', 'transposed', 'colstep3', 'rowpad', 'negrows', 'tstrided']
@@ -258,7 +275,7 @@ def _run(case):
                              e_tol=(4 * table_tol()[ci] + (1e-4 if dt == 'float32' else 1e-12)) * e_in)
         center_req[1].update(err=float(np.abs(np.asarray(rd, np.float64) - A.astype(np.float64)).max()),
                              tol=(5e-5 * scale if dt == 'float32' else
-                                  table_tol()[ci] * float(np.abs(A.astype(np.float64)).max()) + 1e-12 * scale),
+                                  (table_tol()[ci] + table_round_tol()[ci]) * float(np.abs(A.astype(np.float64)).max()) + 1e-290),
                              nco=nco, code=code, border=border)
     elif k == 'lin':
         name = case['name']
